@@ -900,6 +900,33 @@ def replay_line(case):
             "print('sparse:', t(lambda: apply_op(sparse,x,op))); print('numpy :', t(lambda: apply_np(np,d,op)))").replace("null", "None").replace("true", "True").replace("false", "False")
 
 
+def judge_by_weight(build, name, imports, case_type, judge_fn, lits, weights, max_weight, max_count):
+    """build.judge with chunks bounded by total literal size (long list literals overflow coqc's parser stack)"""
+    import re
+    header = ("From Coq Require Import ZArith List Bool.\n" + imports + "\nFrom Verif Require Import Judge.\n"
+              "Import ListNotations.\nOpen Scope Z_scope.\nSet Printing Width 1000000.\nSet Printing Depth 1000000.\n")
+    groups, cur, w = [], [], 0
+    for k, (l, wt) in enumerate(zip(lits, weights, strict=True)):
+        if cur and (w + wt > max_weight or len(cur) >= max_count):
+            groups.append(cur)
+            cur, w = [], 0
+        cur.append(k)
+        w += wt
+    if cur:
+        groups.append(cur)
+    chunks = [f"Definition cases : list ({case_type}) := [\n" + ";\n".join(lits[k] for k in g) +
+              f"].\nEval vm_compute in (run_judge ({judge_fn}) cases)." for g in groups]
+    outs = build.eval_cases(name, header, chunks, timeout=600)
+    res = []
+    for g, out in zip(groups, outs, strict=True):
+        ev = vlib.parse_eval_lists(out)
+        if len(ev) != 1:
+            raise vlib.CoqEvalError(f"unexpected Coq output for {name}: {out[-800:]}")
+        for m in re.finditer(r"\(\s*(-?\d+)\s*,\s*(-?\d+)\s*\)", ev[0]):
+            res.append((g[int(m.group(1))], int(m.group(2))))
+    return res
+
+
 def campaign(build, tier, seed, report, budget=1):
     viol = []
     cases = gen_cases(tier, seed)
@@ -1006,7 +1033,8 @@ def campaign(build, tier, seed, report, budget=1):
             viol.append({"property": "C08", "op": "kernel:" + kind, "kind": "representation", "clause": "kernel_differs_from_model",
                          "case": kcs[j], "impl": kres[j], "replay_py": "print('kernel case', %r)" % (kcs[j],)})
     # Spec vs NumPy itself (validates Spec/NpShapeOps.v; independent of the implementation)
-    spec_bad = build.judge("c08_specnp", imports, "c08_case", "judge_spec_np", np_lits, chunk=60, timeout=600)
+    spec_bad = judge_by_weight(build, "c08_specnp", imports, "c08_case", "judge_spec_np", np_lits,
+                               [len(l) for l in np_lits], max_weight=350000, max_count=400)
     for k, code in spec_bad:
         i = np_idx[k]
         c, r = cases[i], res[i]
